@@ -264,9 +264,12 @@ func vc_Mysql56GTIDSet_Contains_ensures_witness(set Mysql56GTIDSet, other GTIDSe
 	if res {
 		return true
 	}
-	return rangeindex >= 0 && rangeindex < len(otherIntervals) && iv == otherIntervals[rangeindex] &&
-		vspec.SameSlice(otherIntervals, other56[sid]) && vspec.SameSlice(intervals, set[sid]) &&
-		specUncovered(intervals, iv)
+	if !(rangeindex >= 0 && rangeindex < len(otherIntervals) && iv == otherIntervals[rangeindex] &&
+		vspec.SameSlice(otherIntervals, other56[sid]) && vspec.SameSlice(intervals, set[sid])) {
+		return false
+	}
+	// (= specUncovered(intervals, iv), written out: see MariadbGTIDSet.Contains)
+	return vspec.Forall(0, len(intervals), func(k int) bool { return !specIvContains(intervals[k], iv) })
 }
 
 // ---- MariadbGTIDSet.Contains / Equal (C19) ----
@@ -306,7 +309,13 @@ func vc_MariadbGTIDSet_Contains_ensures_witness(gtidSet MariadbGTIDSet, other GT
 	if res {
 		return true
 	}
-	return rangeindex >= 0 && rangeindex < len(mdbOther) && specMariaLacks(gtidSet, mdbOther[rangeindex])
+	if !(rangeindex >= 0 && rangeindex < len(mdbOther)) {
+		return false
+	}
+	// (= specMariaLacks(gtidSet, g), written out here: a quantifier that stands directly in a clause is proved
+	// for an arbitrary k; inside a helper function it would be left to the solver)
+	g := mdbOther[rangeindex]
+	return vspec.Forall(0, len(gtidSet), func(k int) bool { return gtidSet[k].Domain != g.Domain || gtidSet[k].Sequence < g.Sequence })
 }
 
 func vc_MariadbGTIDSet_Equal_requires(gtidSet MariadbGTIDSet, other GTIDSet) bool {
